@@ -1,4 +1,10 @@
 TEXT = {
+ "C18": {
+  "text": "Bit-level theorems over all 2^64 binary64 patterns: the exact magnitude is strictly increasing in the magnitude bits, so the sign-magnitude key orders exact values; the shared range check accepts exactly the finite patterns whose exact value lies in [lo,hi] (both bounds included, lo/hi the documented numbers: boundBits_values proves their exact values), rejects every NaN and both infinities, and stores the pattern unchanged; all six types route JSON through try_from (attribute re-read from the source) so the JSON number route equals the number route. The comparison order, the twelve bound patterns and a correctly rounded decimal->binary64 model (text and JSON grammars) are compared with Rust (<=, <, ==, str::parse, serde_json) on large streams; the falsifier checks the three routes and composite documents.",
+  "design_ref": "DESIGN.md §7 C18",
+  "note": "The decimal parsers (Rust dec2flt, serde_json) are modelled, not verified; 'malformed text is an error, not a panic' is explored (catch_unwind), the grammar model is validated by correspondence.",
+  "technique": "Lean 4 + Mathlib (order) theorems over bit patterns + translator (ranges, serde attributes) + differential correspondence on bit-pattern and string streams",
+ },
  "C15": {
   "text": "Theorems about the fan-in protocol as a labelled transition system (spawn/send/dropTx/recv/close over an unbounded FIFO channel per the mpsc contract), for EVERY schedule, every number of workers and every partition list: every partial result occurs in the state exactly as often as initially (conservation), so when the collector's loop has ended the merged results are exactly the workers' results (nothing lost or duplicated); the loop can end only after the original sender was dropped and every worker has sent; from every reachable unfinished state some action is enabled (no deadlock / lost wake-up); every schedule has at most 3k+2 steps; the sequential/parallel decision; with Thm C14 (exact-cover partition) the collected map is the sequential map. The skeleton of the real function (clone per worker inside the loop, drop(tx) after the loop and before join, collector appends all) is re-read from mod.rs on every run. Runtime: forced worker counts 1..64 and seeded perturbation, compared with the sequential API under a watchdog.",
   "design_ref": "DESIGN.md §7 C15",
